@@ -1,5 +1,5 @@
 """C14 -- dimension-reduction post-processing keeps the guarantee it started from."""
-from . import wrappers, pepsolve
+from . import wrappers, pepsolve, common
 from . import c16
 
 LEVEL = "other"
@@ -8,7 +8,7 @@ EXPLANATION = ("Order rules on the solve root: the multipliers are captured exac
                "mode returns the reconstructed constant, primal mode the solver value (R-RET); both back-ends add `objective >= optimum - tolerance`, "
                "untracked, then minimise a linear function of the Gram matrix over the stored constraints (R-HEUR); heuristic names are dispatched by a "
                "closed chain (R-OPTIONS)."
-               " Also: the published Gram matrix / function values are the solver's last solution (never an eigenvalue-thresholded matrix), the heuristic receives the first optimum, the user's tolerance, the identity ('trace') or the regularised inverse ('logdet').")
+               " Also: the published Gram matrix / function values are the solver's last solution (never an eigenvalue-thresholded matrix), the heuristic receives the first optimum, the user's tolerance, the identity ('trace') or the regularised inverse ('logdet'); every argument of the call of the solve root that is spelled like one of its parameters is bound to that parameter (R-ARGBIND).")
 TRUSTED = ["CPython ast"]
 ASSUMPTIONS = ["'trace does not increase', 'within tolerance' and feasibility of the returned instance are numeric facts, not decided"]
 
@@ -21,4 +21,7 @@ def run(ctx):
     wrappers.r_heur(ctx)
     wrappers.r_mainvars(ctx)
     c16.r_options(ctx)
+    root = common.solve_root(ctx.repo)
+    na, nb = common.r_argbind(ctx, {root.name}, why=" (tolerance, regularisation, heuristic and verbosity reach the solve root under their own names)")
+    ctx.floor("name-matched arguments of the solve root", nb, 5)
     ctx.floor("heuristic call sites", n, 3)
